@@ -133,6 +133,21 @@ def campaign(c):
             elif 'error' not in out:
                 c.violation('io:no-diagnostic:' + name, '%s: no diagnostic printed' % name, dict(args=args, out=out))
             c.case(('other', name), dict(kind=name, rc=rc, out=out[-160:]))
+        # missing inputs whose names hold characters that mean something to a shell or a path library: reported like any other
+        good_in = os.path.join(d, 'goodin.rsyn'); open(good_in, 'wb').write(src)
+        for odd in ('abs*nt', 'wh?t', '[x]', '{a,b}', '~x', '$HOME', 'a b', 'x;y', 'dot.', 'sub/dir*/f'):
+            for argv in ([os.path.join(d, odd + '.rsyn')], [good_in, os.path.join(d, odd + '.rsyn')], [os.path.join(d, odd + '.rsyn'), good_in]):
+                for how in (['--out-dir', d],) + ((['-o', os.path.join(d, 'only.pcap')],) if len(argv) == 1 else ()):
+                    pr = subprocess.run([core.CLI] + how + argv, capture_output=True, cwd=d, timeout=60)
+                    name = 'missing-input-odd-name:%s:%d' % (odd, len(argv))
+                    out_ = pr.stdout.decode('utf-8', 'replace')
+                    if b'panicked' in pr.stderr or pr.returncode not in (0, 1):
+                        c.violation('io:panic:' + name, '%s: panic / abnormal exit %d' % (name, pr.returncode), dict(args=[a.replace(d, '<T>') for a in argv]))
+                    elif pr.returncode == 0:
+                        c.violation('io:claimed-success:' + name, '%s: an input that does not exist, the exit status is 0' % name, dict(args=[a.replace(d, '<T>') for a in argv], out=out_.replace(d, '<T>')[-200:]))
+                    elif (odd + '.rsyn') not in out_ or 'error' not in out_:
+                        c.violation('io:no-diagnostic:' + name, '%s: no diagnostic names the missing input' % name, dict(args=[a.replace(d, '<T>') for a in argv], out=out_.replace(d, '<T>')[-200:]))
+            c.case(('other', 'missing-odd:' + odd), dict(kind='missing-input-odd-name', name=odd))
         # output into a named pipe whose reader has gone away before anything is written (EPIPE at whatever write comes first - for a
         # small program the final flush): a failure like any other
         for prog_src, tagp in ((src, 'small'), (big_program(3, 4000), 'several-buffers'), (b'', 'empty')):
